@@ -108,7 +108,12 @@ func VerifH_C09_heartbeat_races_close() {
 // handled when that session closes from elsewhere (its own close packet on another request,
 // an aborted poll, a timeout) at any yield point of the handler: the handler does not crash;
 // the request is either dispatched to the session's transport or answered 'Session ID unknown'.
-func VerifH_C09_session_closes_during_request() {
+func VerifH_C09_session_closes_during_request() { sessionClosesDuringRequest() }
+
+// C11: the same race read as response discipline: the request gets exactly one response.
+func VerifH_C11_session_closes_during_request() { sessionClosesDuringRequest() }
+
+func sessionClosesDuringRequest() {
 	opts := config.DefaultServerOptions()
 	ps := newProtoServer(opts)
 	c1, _ := newCtx("GET", "/engine.io/")
@@ -137,7 +142,7 @@ func VerifH_C09_session_closes_during_request() {
 	verif.InjectBudget(1)
 	ps.HandleRequest(ctx)
 	verif.InjectBudget(0)
-	verif.Assert(w.writeCalls <= 1, "at most one response")
+	verif.Assert(w.writeCalls == 1, "the request receives exactly one response (dispatched to the session's transport, or refused)")
 	if w.writeCalls == 1 && len(w.status) == 1 && w.status[0] == 400 && len(w.bodies) == 1 {
 		verif.Assert(verif.JSONInt(w.bodies[0], "code") == 1, "a request that lost its session is answered 'Session ID unknown'")
 	}
